@@ -63,9 +63,11 @@ def run(ctx):
     g6(ctx, R)
     # "has required every extension it uses": the three gates, registry ownership and its per-parse reset (rules of C07 / C13)
     from .c07 import gates
-    from .c13 import h3
+    from .c13 import h3, h2
     gates(ctx, R)
     h3(ctx, R)
+    # the verdict for a script is decided by that script alone: parser state written while handling tokens is re-initialised (H2 of C13)
+    h2(ctx, R)
 
 
 # =============================================================================== lexer
@@ -464,13 +466,32 @@ def p2(ctx, R):
     parse = R.parse
     cfg = ctx.cfg(parse)
     rets = [r for r in walk_no_nested(parse.node) if isinstance(r, ast.Return) and const_value(ctx.program, parse, r.value) is True]
-    if len(rets) != 1:
-        raise AnalysisError("P2", "parse(): expected exactly one `return True`")
-    rn = cfg.nodes_for(rets[0])[0]
     fors = [x for x in walk_no_nested(parse.node) if isinstance(x, ast.For) and "scan" in norm(x.iter)]
     if not fors:
         raise AnalysisError("P2", "token loop not found")
     after = fors[0].lineno
+    # accepting exits taken before any token was scanned: only for an input without tokens
+    tparam = parse.params[1] if len(parse.params) > 1 else None
+
+    def blank_input(fc):
+        e, pol = fact_atom(fc)
+        if pol is False and isinstance(e, ast.Name) and e.id == tparam:
+            return True
+        if pol is False and isinstance(e, ast.Call) and isinstance(e.func, ast.Attribute) and e.func.attr in ("strip", "lstrip", "rstrip") \
+                and isinstance(e.func.value, ast.Name) and e.func.value.id == tparam and not e.args:
+            return True
+        return False
+    early = [r for r in rets if r.lineno < after]
+    for r in early:
+        if all(cfg.guarded(x, blank_input) for x in cfg.nodes_for(r)):
+            ctx.holds("P2", "early `return True` only for an input that is empty or blank")
+        else:
+            ctx.violation("P2", parse, "accept-without-scanning", "parse() can return True before the token loop for an input that was not "
+                          "found empty", node=r, witness="a script is accepted without having been scanned")
+    rets = [r for r in rets if r.lineno > after]
+    if len(rets) != 1:
+        raise AnalysisError("P2", "parse(): expected exactly one `return True` after the token loop")
+    rn = cfg.nodes_for(rets[0])[0]
 
     def empty_fact(attr_sub):
         def pred(fc):
@@ -996,17 +1017,57 @@ def g5(ctx, R):
     # is reached only with pos >= len(args_definition): that means surplus argument -> handled by iscomplete() guard at the top
 
 
+def _command_helpers(R, root):
+    """Command methods reachable from `root` through self-calls (root first)."""
+    from sa.util import self_calls
+    prog = R.ctx.program if hasattr(R, "ctx") else None
+    out, todo = [], [root]
+    while todo:
+        f = todo.pop()
+        if f is None or f in out:
+            continue
+        out.append(f)
+        for c in self_calls(f):
+            g = _resolve_private(R.Command, c.func.attr)
+            if g is not None:
+                todo.append(g)
+    return out
+
+
+def _resolve_private(cls, attr):
+    if attr in cls.methods:
+        return cls.methods[attr]
+    for n, f in cls.methods.items():
+        if n.lstrip("_") == attr.lstrip("_"):
+            return f
+    return None
+
+
+def _is_lowered(e):
+    return isinstance(e, ast.Call) and isinstance(e.func, ast.Attribute) and e.func.attr in ("lower", "casefold")
+
+
 def g6(ctx, R):
+    from sa.util import self_calls, bound_arg
     ctx.rule("G6", "tag tokens are compared case-insensitively with the tables")
     n = 0
+    funcs = []
     for f in (R.check_next_arg, R.valid_value, R.iscomplete):
-        if f is None:
-            continue
+        for g in _command_helpers(R, f):
+            if g not in funcs and g not in (R.tosieve,):
+                funcs.append(g)
+    for f in funcs:
+        defs = {}
+        for a in walk_no_nested(f.node):
+            if isinstance(a, ast.Assign) and len(a.targets) == 1 and isinstance(a.targets[0], ast.Name):
+                defs.setdefault(a.targets[0].id, []).append(a.value)
         for c in walk_no_nested(f.node):
             tok = None
             table_side = None
             if isinstance(c, ast.Compare) and len(c.ops) == 1 and isinstance(c.ops[0], (ast.In, ast.NotIn)):
                 table_side = norm(c.comparators[0])
+                if isinstance(c.comparators[0], ast.Name) and len(defs.get(c.comparators[0].id, [])) == 1:
+                    table_side += " " + norm(defs[c.comparators[0].id][0])
                 tok = c.left
             elif isinstance(c, ast.Call) and isinstance(c.func, ast.Attribute) and c.func.attr == "get" and c.args \
                     and "extension_values" in norm(c.func.value):
@@ -1025,11 +1086,23 @@ def g6(ctx, R):
                 ctx.holds("G6", "%s: %s compares a parameter value, not a tag (outside the rule)" % (f.qualname, norm(c)[:60]))
                 continue
             n += 1
-            lowered = isinstance(tok, ast.Call) and isinstance(tok.func, ast.Attribute) and tok.func.attr in ("lower", "casefold")
+            lowered = _is_lowered(tok)
+            where = norm(c)[:70]
+            if not lowered and isinstance(tok, ast.Name):
+                if tok.id in defs and all(_is_lowered(v) for v in defs[tok.id]):
+                    lowered = True
+                elif tok.id in f.params and f not in (R.check_next_arg,):
+                    # a helper's parameter: every call site must pass the lowered token
+                    sites = [(g, cs) for g in R.Command.methods.values() for cs in self_calls(g) if _resolve_private(R.Command, cs.func.attr) is f]
+                    passed = [bound_arg(cs, f, tok.id) for g, cs in sites]
+                    if sites and all(e is not None and _is_lowered(e) for e in passed):
+                        lowered = True
+                    else:
+                        where = "%s, called as %s" % (norm(c)[:50], "; ".join(norm(cs)[:60] for g, cs in sites)[:120])
             if lowered:
                 ctx.holds("G6", "%s: %s" % (f.qualname, norm(c)[:70]))
             else:
-                ctx.violation("G6", f, "case-sensitive-tag:%s" % norm(c)[:60], "the tag token is compared case-sensitively: %s" % norm(c)[:70],
+                ctx.violation("G6", f, "case-sensitive-tag:%s" % norm(c)[:60], "the tag token is compared case-sensitively: %s" % where,
                               node=c, witness='`header :COUNT "gt" "a" "1"` is rejected while `:count` is accepted')
     ctx.need("G6", "tag membership tests", n, 2)
 
